@@ -12,7 +12,7 @@ import Driver.Util
                                    unsignalled threads, threads blocked on something else, t[i].state
                                    digits (0 NEW 1 RCMD 2 READING 3 DONE 4 FAILED 5 CANCELED)  -> ok | reject ..
     ev D <createS|lock|wait|wake 0|wake 1|relock|create j|unlock|cancelS|return>
-    ev W<i> <lockT|time|unlockT|connectBegin|connectEnd 0|connectEnd 1|destroyBegin|destroyEnd|lock|signal|unlock>
+    ev W<i> <lockT|lockTF|time|unlockT|connectBegin|connectEnd 0|connectEnd 1|destroyBegin|destroyEnd|lock|signal|unlock>
     ev Z <sigwait int|sigwait tstp|time v|lockT|fwd h|unlockT|lock|unlock|stop|exit c|die>
                                    die: the thread ends on dsh()'s (deferred) cancellation request
     ev E <deliver int|deliver tstp|tick v>                                                -> ok | reject ..
@@ -88,6 +88,7 @@ def parseLabel : List String → Option Label
     | some i =>
       match a with
       | "lockT" => some (.w i .lockT)
+      | "lockTF" => some (.w i .lockTF)
       | "time" => some (.w i .time)
       | "unlockT" => some (.w i .unlockT)
       | "connectBegin" => some (.w i .connectBegin)
@@ -195,6 +196,11 @@ def checkObs (s : St) : List String → Option String
       let m := match s.ws[i]? with | some w => showW w | none => "?"
       if m = p then none else some s!"worker {i} after connect: impl={p} model={m}"
     | none => some "bad obs line"
+  | ["gkill"] =>
+    -- the watchdog interrupts a worker (pthread_kill SIGALRM): only while it holds thd_mutex around that slot
+    match s.gpc with
+    | .inside _ => none
+    | _ => some s!"the watchdog signals a worker without holding thd_mutex ({showSt s})"
   | ["emit", t] =>
     -- a stdio call (fputs on stdout / stderr) by thread t: the product model (Dsh/SignalsOutput.lean) says who can be
     -- inside one: `emits`
